@@ -958,7 +958,9 @@ func (b *bitstream) skipVarUintLen(max uint64) (uint64, error) {
 // Remaining returns the number of bytes remaining in the current container.
 func (b *bitstream) remaining() uint64 {
 	if b.stack.empty() {
-		return math.MaxUint64
+		// At the top level a value may extend to the largest representable
+		// position, but not beyond: an end offset must not wrap around.
+		return math.MaxUint64 - b.pos
 	}
 
 	end := b.stack.peek().end
